@@ -91,57 +91,12 @@ fn hoist_gather_continuations(
     }
 }
 
-fn threaded_loop_label_for_choice_block(continuation: &[Node]) -> Option<(String, bool)> {
-    let mut nodes = continuation;
-    while !nodes.is_empty() && matches!(nodes[0], Node::Newline) {
-        nodes = &nodes[1..];
-    }
-
-    if let Some(Node::GatherLabel { label, .. }) = nodes.first()
-        && label == "loop"
-    {
-        return Some((label.clone(), true));
-    }
-
-    None
-}
-
-fn should_use_wrapped_choice_for_label(loop_label: &str, scope: &EmitScope) -> bool {
-    loop_label == "loop" && !scope.path.contains('.')
-}
-
-fn split_nodes_at_first_choice(nodes: &[Node]) -> (&[Node], &[Node], &[Node]) {
-    let mut idx = 0usize;
-    while idx < nodes.len() && !matches!(nodes[idx], Node::Choice(_)) {
-        idx += 1;
-    }
-    if idx >= nodes.len() {
-        return (nodes, &[], &[]);
-    }
-
-    let level = match &nodes[idx] {
-        Node::Choice(c) => c.nesting_level,
-        _ => unreachable!(),
-    };
-    let mut end = idx;
-    while end < nodes.len() {
-        match &nodes[end] {
-            Node::Choice(c) if c.nesting_level == level => end += 1,
-            _ => break,
-        }
-    }
-
-    (&nodes[..idx], &nodes[idx..end], &nodes[end..])
-}
-
 enum ChoiceEmissionMode {
     Flat,
-    ThreadedLoopLabel { loop_label: String },
     ThreadedAnonGather,
 }
 
 struct WeaveChoiceSection<'a> {
-    prefix_nodes: &'a [Node],
     choices: &'a [Node],
     continuation_nodes: &'a [Node],
     mode: ChoiceEmissionMode,
@@ -236,41 +191,8 @@ fn analyze_weave_choice_section<'a>(
     continuation: &'a [Node],
     scope: &EmitScope,
 ) -> WeaveChoiceSection<'a> {
-    if let Some((loop_label, strip_label)) = threaded_loop_label_for_choice_block(continuation)
-        && should_use_wrapped_choice_for_label(&loop_label, scope)
-    {
-        let mut continuation_tail = skip_leading_newlines(continuation);
-        if strip_label
-            && matches!(
-                continuation_tail.first(),
-                Some(Node::GatherLabel { .. })
-            )
-        {
-            continuation_tail = &continuation_tail[1..];
-        }
-
-        let (prefix, loop_choices, continuation_after_choices) =
-            split_nodes_at_first_choice(continuation_tail);
-        if !loop_choices.is_empty() {
-            return WeaveChoiceSection {
-                prefix_nodes: prefix,
-                choices: loop_choices,
-                continuation_nodes: continuation_after_choices,
-                mode: ChoiceEmissionMode::ThreadedLoopLabel { loop_label },
-            };
-        }
-
-        return WeaveChoiceSection {
-            prefix_nodes: &[],
-            choices,
-            continuation_nodes: continuation_tail,
-            mode: ChoiceEmissionMode::ThreadedLoopLabel { loop_label },
-        };
-    }
-
     if should_use_threaded_anon_gather(choices, continuation, scope) {
         return WeaveChoiceSection {
-            prefix_nodes: &[],
             choices,
             continuation_nodes: continuation,
             mode: ChoiceEmissionMode::ThreadedAnonGather,
@@ -278,7 +200,6 @@ fn analyze_weave_choice_section<'a>(
     }
 
     WeaveChoiceSection {
-        prefix_nodes: &[],
         choices,
         continuation_nodes: continuation,
         mode: ChoiceEmissionMode::Flat,
